@@ -452,6 +452,11 @@ func runTuning(bin string, c *Case, idx int) (*result, error) {
 			cargs = k
 		}
 		cargs = append(cargs, "--csv", "-")
+		if (len(c.Lines)+idx)%3 == 0 {
+			// an explicit --snapshot next to --csv -: stdout still belongs to the export alone
+			cargs = append(cargs, "--snapshot")
+			c.Obs.Label(true, "csv-run-with---snapshot")
+		}
 		so2, se2, code2, err := runRare(bin, append(cargs, tail...), stdin, tu.Procs)
 		if err != nil {
 			return nil, fmt.Errorf("harness: cannot run rare: %v", err)
